@@ -47,6 +47,21 @@ def inputs_for(g, alphabet, maxlen, rng, extra_long=0):
         yield "".join(rng.choice(alphabet) for _ in range(L))
 
 
+def long_inputs(g, alphabet, rng, targets=(12, 16, 22, 30)):
+    """Long inputs for grammars over one-character vocabularies: random sentences
+    of growing length, each followed by a one-token mutation of itself."""
+    if has_overlap(g):
+        return
+    for t in targets:
+        s = cfg.rand_sentence(g, rng, t)
+        if s is None or len(s) < 8 or len(s) > 3 * t:
+            continue
+        w = "".join(s)
+        yield w
+        k = rng.randrange(len(w))
+        yield w[:k] + rng.choice(alphabet) + w[k + (1 if rng.random() < 0.7 else 0) :]
+
+
 def relayout(w, rng, fillers=LAYOUT_FILLERS, density=1.0):
     """Insert layout before the first character, between characters, after the last.
     With density < 1 most gaps stay empty so that multi-character tokens survive
